@@ -187,6 +187,9 @@ func C05_Default() {
 	if err != nil || len(cmds) == 0 {
 		return
 	}
+	if contInHeredoc(src) || hasLoneBackslash(cmds) {
+		nd.Assume(false) // same exclusions as c05 (KF-C05-lone-backslash is reported there)
+	}
 	out, perr := PrintCmds(nil, cmds)
 	nd.Assert(perr == nil, "printing a parser result reports no error")
 	cmds2, err2 := parseAll([]rune(out))
